@@ -100,6 +100,7 @@ func RunC19(t *testing.T, spec kernel.Spec) *kernel.Outcome {
 		if len(issuers) > 1 {
 			c.interleaved(issuers)
 		}
+		c.sibling(tape.Sub("sibling"))
 		c.issuerTable(tape.Sub("table"))
 		c.hostileDiscovery()
 		o.Log = append([]string{fmt.Sprintf("config: router=%s mode=%s path=%q flags{s256=%v post=%v pkjwt=%v refresh=%v reqobj=%v} caps=%+v endpoints{auth=%s token=%s introspect=%s userinfo=%s revoke=%s end=%s jwks=%s device=%s} abs=%v",
@@ -306,6 +307,54 @@ func (c *c19) flow(b *world.Browser, issuer string, doc *oidc.DiscoveryConfigura
 			}
 		} else {
 			c.viol("request-object-not-honoured", "authorize/bare", "a valid signed request object with only the required members was refused (%d %s)", r2.Status, firstLine(r2.Body))
+		}
+	}
+}
+
+// sibling: a second provider lives in the same process (another tenant with other optional grants: refresh flipped,
+// other storage capabilities). Discovery requests to both are served at the same time, interleaved by the seeded
+// scheduler at every storage call; each document must be what that provider answers when asked alone.
+func (c *c19) sibling(ch *kernel.Chooser) {
+	w := c.w
+	conf := *w.Conf
+	conf.GrantTypeRefreshToken = !conf.GrantTypeRefreshToken
+	caps := world.Caps{ClientCredentials: !w.Caps.ClientCredentials, TokenExchange: !w.Caps.TokenExchange, Device: !w.Caps.Device, FromRequest: w.Caps.FromRequest}
+	node, err := world.BuildOP(w.Store, world.OPConfig{Router: w.Router, Issuer: "https://sib.sim", Config: &conf, Caps: caps,
+		Options: []op.Option{op.WithAccessTokenVerifierOpts(op.WithSupportedAccessTokenSigningAlgorithms(string(w.SigAlg)))}})
+	world.RestoreDefaultEndpoints()
+	if err != nil {
+		c.o.Logf("sibling provider: %v", err)
+		return
+	}
+	w.Net.Hosts["sib.sim"] = node.Handler
+	fetch := func(issuer string) func(ctx context.Context) *world.Resp {
+		return func(ctx context.Context) *world.Resp {
+			req, _ := http.NewRequestWithContext(ctx, "GET", issuer+"/.well-known/openid-configuration", nil)
+			return w.DoRaw(req)
+		}
+	}
+	targets := []string{w.Issuers[0], "https://sib.sim"}
+	var gops []*groupOp
+	var want []string
+	n := 2 + ch.Int(3)
+	for k := 0; k < n; k++ {
+		iss := targets[k%2]
+		if k >= 2 {
+			iss = targets[ch.Int(2)]
+		}
+		do := fetch(iss)
+		ref := do(context.Background())
+		want = append(want, fmt.Sprintf("%d %s", ref.Status, ref.Body))
+		gops = append(gops, &groupOp{label: iss, do: do})
+	}
+	trace := runGroup(w, c.o, "sibling", gops, 0)
+	c.o.Probe("sibling-provider-groups")
+	for k, g := range gops {
+		if g.resp == nil || g.resp.Err != nil {
+			continue
+		}
+		if got := fmt.Sprintf("%d %s", g.resp.Status, g.resp.Body); got != want[k] {
+			c.viol("not-truthful-under-concurrency", "discovery/sibling-provider", "the discovery document of %s, served while another provider of the same process was answering discovery (schedule %v), differs from what it answers alone:\n  alone:      %s\n  concurrent: %s", g.label, trace, firstLine(want[k]), firstLine(got))
 		}
 	}
 }
